@@ -3,12 +3,13 @@ package main
 import (
 	"encoding/json"
 	"fmt"
+	"verif/harness/hlib"
 
 	"mvdan.cc/sh/v3/expand"
 )
 
 // C33 (a): one EDGE of ShArrays' state graph = one call of the real helper functions.
-func init() { register("arrayrep", arrayRepEngine) }
+func init() { hlib.Register("arrayrep", arrayRepEngine) }
 
 type arrRep struct {
 	List []string `json:"list"`
